@@ -245,6 +245,12 @@ def der_tree_mutations(data):
                     yield "tree:inner_len_overrun_keep%d" % min(keep, 3), edit(lambda l, i, keep=keep: l.__setitem__(i, [None, None, bytes([tag]) + _dr.enc_len(len(body)) + body[:keep], b""]))
             yield "tree:inner_len_overrun_zero_byte", edit(lambda l, i: l.__setitem__(i, [None, None, bytes([tag]) + _dr.enc_len(max(2, len(body))) + b"\x00", b""]))
             yield "tree:inner_len_overrun_ff_byte", edit(lambda l, i: l.__setitem__(i, [None, None, bytes([tag]) + _dr.enc_len(max(2, len(body))) + b"\xff", b""]))
+        # a lone tag octet in place of the element (no length, no content), every enclosing length consistent: the high-tag-number
+        # introducers (xxx11111) and the element's own tag
+        for lt_ in (0x1F, 0x3F, 0x5F, 0x7F, 0x9F, 0xBF, 0xDF, 0xFF, tag & 0xFF):
+            yield "tree:lone_tag_%02x" % lt_, edit(lambda l, i, lt_=lt_: l.__setitem__(i, [None, None, bytes([lt_]), b""]))
+            # ... and as the LAST thing in its parent (the following siblings dropped)
+            yield "tree:lone_tag_last_%02x" % lt_, edit(lambda l, i, lt_=lt_: (l.__setitem__(i, [None, None, bytes([lt_]), b""]), l.__delitem__(slice(i + 1, None))))
         yield "tree:drop", edit(lambda l, i: l.__delitem__(i))
         yield "tree:dup", edit(lambda l, i: l.insert(i, copy.deepcopy(l[i])))
         yield "tree:append_null", edit(lambda l, i: l.insert(i + 1, [0x05, None, b"", b""]))
